@@ -110,6 +110,15 @@ func (r *RibEntry) pruneIfEmpty() {
 }
 
 func (r *RibEntry) updateNexthopsEnc() {
+	if r.Name == nil {
+		// Name-less filler node: it has no routes and no FIB entry of its own
+		// (a nil name would address the root entry); only its children need an update.
+		for child := range r.children {
+			child.updateNexthopsEnc()
+		}
+		return
+	}
+
 	FibStrategyTable.ClearNextHopsEnc(r.Name)
 
 	// All routes including parents if needed
